@@ -499,6 +499,14 @@ func genTaskSteps(r *Rng, nops int, sharedMsg *MsgSpec, sharedProt *Step, allowS
 			steps = append(steps, Step{Op: "kdf", Suite: &s2, Nonce: r.Bytes(r.Range(1, 64)), Secret: r.Bytes(r.Range(1, 64)), SpiI: r.U64(), SpiR: r.U64()})
 		case 9:
 			g := 2
+			if r.Bool() {
+				// the same exponent used again (KE retransmitted after a COOKIE / INVALID_KE_PAYLOAD round, RFC 7296 §2.6)
+				x := r.Bytes(Pick(r, 2, 16, 32))
+				for k := r.Range(2, 3); k > 0; k-- {
+					steps = append(steps, Step{Op: "dh_pub", Group: g, X: x})
+				}
+				break
+			}
 			steps = append(steps, Step{Op: "dh_shared", Group: g, X: r.Bytes(Pick(r, 2, 16, 32)), Y: r.Bytes(Pick(r, 1, 64, 128))})
 		case 10:
 			st := Step{Op: "dh_gen", Rand: &RandScript{Seed: r.U64(), Chunk: Pick(r, 0, 64)}}
